@@ -8,7 +8,7 @@ func checkC19(p *Program, tier string) *Result {
 	ruleSibling(p, r)
 	ruleLoop(p, r, "bc")
 	r.floor("R-LOOP", 3)
-	ruleLayout(p, r)
+	ruleLayout(p, r, "d", false)
 	rulePadCallSites(p, r)
 	r.Trusted = append(r.Trusted, "errors.As", "the body-types-per-header-type table (RFC 8907) in rule_sibling.go")
 	r.Assumptions = append(r.Assumptions, "the probability that a wrong key yields consistent lengths is inherent to the protocol and not decided")
